@@ -12,6 +12,7 @@ import (
 	"os"
 	"os/exec"
 	"path/filepath"
+	"regexp"
 	"strings"
 	"time"
 )
@@ -37,10 +38,26 @@ func writeCounterexample(dir string, v *Violation, r *entryResult, lc LoadConfig
 
 	pkgName, _ := packageNameOf(lc.PkgDir)
 	overlay := map[string]string{}
+	// solver-chosen type names: rename the declared identifiers in the harness copy
+	rename := map[string]string{}
+	for _, in := range v.Inputs {
+		if strings.HasPrefix(in.Tag, "typename:") {
+			id := strings.TrimPrefix(in.Tag, "typename:")
+			if _, ok := rename[id]; !ok {
+				rename[id] = "T"
+			}
+			var b int
+			fmt.Sscan(in.Val, &b)
+			rename[id] += string(rune(b))
+		}
+	}
 	put := func(src, dstBase string) {
 		data, err := os.ReadFile(src)
 		if err != nil {
 			return
+		}
+		for id, nn := range rename {
+			data = regexp.MustCompile(`\b`+regexp.QuoteMeta(id)+`\b`).ReplaceAll(data, []byte(nn))
 		}
 		local := filepath.Join(dir, dstBase)
 		os.WriteFile(local, rewritePackage(data, pkgName), 0o644)
